@@ -49,10 +49,14 @@ class FileDumper(DumperBase):
         resource: Resource = None
         used_paths = set(['datapackage.json'])
         for i, resource in enumerate(datapackage.resources):
+            # Resources of other origins: a multipart path, inline data, fields without a type
+            path = resource.descriptor.get('path')
+            if isinstance(path, list):
+                path = path[0] if len(path) > 0 else None
             if self.force_format:
                 file_format = self.forced_format
             else:
-                _, file_format = os.path.splitext(resource.source)
+                _, file_format = os.path.splitext(path or '')
                 file_format = file_format[1:].lower()
             file_formatter = self.custom_formatters.get(file_format) or {
                 'csv': CSVFormat,
@@ -62,6 +66,11 @@ class FileDumper(DumperBase):
                 'xlsx': ExcelFormat,
             }.get(file_format)
             if file_formatter is not None:
+                # what gets written is one file (whatever the resource came from)
+                resource.descriptor['path'] = path or resource.name
+                resource.descriptor.pop('data', None)
+                for field in resource.descriptor.get('schema', {}).get('fields', []):
+                    field.setdefault('type', 'string')
                 self.file_formatters[resource.name] = file_formatter
                 self.file_formatters[resource.name].prepare_resource(resource)
                 # Every resource gets an output file of its own (also not the descriptor's)
